@@ -63,7 +63,7 @@ def evaluate(prop, cases, deadline, stats, want_model=True):
             # anything escaping is a harness bug
             raise InfraError(f"observe crashed on {case}: {type(e).__name__}: {e}\n{traceback.format_exc()}") from e
         orc = prop.oracle(case, obs)
-        results.append({"case": case, "obs": obs, "oracle": orc, "model": None})
+        results.append({"case": case, "obs": obs, "oracle": orc, "model": None, "seq": len(results)})
     if want_model and results:
         reqs, spans = [], []
         for r in results:
@@ -110,6 +110,14 @@ def replay(prop, path: Path) -> int:
     orc = prop.oracle(case, obs)
     print("case:", json.dumps(case)[:2000])
     print("observation:", json.dumps(obs, default=str)[:2000])
+    if not orc and payload.get("history"):
+        # the failure may depend on what ran before it in the same process (caches, reused buffers):
+        # replay the cases that preceded it in the original run, then the case again
+        print(f"passes in isolation; replaying the {len(payload['history'])} preceding cases of the original run first")
+        for h in payload["history"]:
+            prop.observe(h)
+        obs = prop.observe(case)
+        orc = prop.oracle(case, obs)
     if orc:
         print(f"REPLAY-FAILS property={prop.id}: {orc}")
         return 1
@@ -158,6 +166,8 @@ def check(prop, pid, tier, seed, t0, no_proof) -> int:
         srng = common.prng(pid, seed, "search")
         extra = evaluate(prop, prop.search(srng, tier), time.time() + prop.search_budget_s[1 if thorough else 0],
                          stats, want_model=False)
+        for r in extra:
+            r["seq"] += 10 ** 6          # the search ran after the main sweep
         searched = len(extra)
         failures += [r for r in extra if r["oracle"]]
         results += extra
@@ -176,9 +186,13 @@ def check(prop, pid, tier, seed, t0, no_proof) -> int:
     rc = 0
     violations = 0
     if new_fail:
-        f = prop.shrink(new_fail[0])
+        f0 = new_fail[0]
+        f = prop.shrink(f0)
+        # cases that ran before it in this process (a failure may depend on state they left behind)
+        lo = f0.get("seq", 0) // 10 ** 6 * 10 ** 6
+        hist = [r["case"] for r in results if lo <= r.get("seq", -1) < f0.get("seq", 0)][-40:]
         path = write_replay(pid, {"property": pid, "kind": "failing-input", "case": f["case"], "obs": f["obs"],
-                                  "oracle": f["oracle"], "broken": broken, "seed": seed,
+                                  "oracle": f["oracle"], "broken": broken, "seed": seed, "history": hist,
                                   "replay_cmd": f"./check {pid} --replay <this file>"})
         print(f"VIOLATION property={pid} replay={path}")
         print(f"  oracle: {f['oracle'][:500]}")
